@@ -3,6 +3,7 @@ import math
 import z3
 from .common import Check, run_parallel, Inconclusive
 from .stream import *
+from .stream import _trim
 from .c14 import values_equal
 from .c06 import byte_at
 from oracle.langs import LANGS
@@ -29,6 +30,8 @@ def value_lt(val, t):
     """exact: value < t for the reported value (t concrete)"""
     if math.isnan(t):
         return z3.BoolVal(False)
+    if isinstance(val, Choice):
+        return z3.Or(*[z3.And(ZB(c) if not isinstance(c, bool) else z3.BoolVal(c), value_lt(v, t)) for c, v in val.alts])
     if isinstance(val, (F64Exact, F64Dec, F64Recip)):
         r = val.compare_const('Lt', t)
         if isinstance(r, tuple):
@@ -42,10 +45,9 @@ def value_lt(val, t):
 
 
 def single_digit(text):
-    s = to_symstr(text).seq if not isinstance(text, Choice) else None
-    if s is None:
-        raise Inconclusive('text is a Choice')
-    return B64(s.len) == 1
+    if isinstance(text, Choice):
+        return z3.Or(*[z3.And(ZB(c) if not isinstance(c, bool) else z3.BoolVal(c), single_digit(v)) for c, v in text.alts])
+    return B64(to_symstr(text).seq.len) == 1
 
 
 def worker(ck: Check, job):
@@ -87,8 +89,9 @@ def worker(ck: Check, job):
     ext.shape_ignore = {'Occurence'}
     rt = run_scanner(ck, ext, L, st.slots, thr)
     ck.absorb(ext)
-    O0 = H.merged_result(r0)
-    Ot = H.merged_result(rt)
+    cov = []
+    O0 = merged(cov, r0)
+    Ot = merged(cov, rt)
     n0, occ0 = occ_list(O0)
     nt, occt = occ_list(Ot)
     hide_nothing = math.isnan(thr) or thr <= 0
@@ -138,7 +141,7 @@ def worker(ck: Check, job):
                                                                         [(o['start'], o['end'], o['text']) for o in a],
                                                                         [(o['start'], o['end'], o['text']) for o in b],
                                                                         '; '.join(p[1] for p in problems[:2]))}
-    ck.prove_none(name, st.assm, bad, on_cex, lambda m, c: None)
+    ck.prove_none(name, st.assm, guard(cov, bad), on_cex, lambda m, c: None)
     ck.cover(name + ':held-and-dropped', st.assm + [z3.UGT(n0, nt)], lambda m: {'lang': code, 'tokens': [t[0] for t in st.concrete(m)]})
     ck.cover(name + ':kept', st.assm + [z3.UGE(nt, 2)], lambda m: {'lang': code, 'tokens': [t[0] for t in st.concrete(m)]})
     ck.bounds['stream_words'] = k
